@@ -91,6 +91,27 @@ inline Real3 unit(char const* n)
 }
 }  // namespace
 
+#ifdef VERIF_MOMENTUM
+//! cut for ReciprocalDistribution::operator() in the momentum obligation: any value (its range [a, b] is assumed by the obligation, which knows a and b)
+static double g_eps = 0;
+extern "C" double stub_recip(void const* self, StubRng& rng)
+{
+    ++rng.draws;
+    g_eps = verif_nondet_f64("reciprocal_sample");
+    return g_eps;
+}
+#endif
+#ifdef VERIF_CUT_ROTATE
+//! cut for celeritas::rotate: any unit vector whose cosine with the axis is the polar cosine of the local vector (the contract decided in C20.1)
+extern "C" Real3 stub_rotate(Real3 const& dir, Real3 const& rot)
+{
+    Real3 out{verif_nondet_f64("rotated"), verif_nondet_f64("rotated"), verif_nondet_f64("rotated")};
+    verif_assume(verif_approx_eq(out[0] * out[0] + out[1] * out[1] + out[2] * out[2], 1.0, 1.0));
+    verif_assume(verif_approx_eq(out[0] * rot[0] + out[1] * rot[1] + out[2] * rot[2], dir[2], 1.0));
+    return out;
+}
+#endif
+
 VERIF_OBLIGATION(obl_c04_klein_nishina)
 {
     double e = verif_nondet_f64("inc_energy");
@@ -148,6 +169,12 @@ VERIF_OBLIGATION(obl_c04_eplusgg)
     ParticleTrackView particle(f.pparams, f.pstate, TrackSlotId{0});
     StackAllocator<Secondary> allocate(f.sdata);
     Real3 dir = unit("inc_dir");
+#ifdef VERIF_MOMENTUM
+    // optional witness point inside the region of known finding F9 where every square root is rational (tau = 2/3: tau/(tau+2) = 1/4,
+    // tau (tau+2) = 16/9), incident direction +z: keeps the in-flight counterexample within reach of the nonlinear solvers
+    if (verif_nondet_bool("witness_point"))
+        verif_assume(3 * e == 2 * mec2 && dir[0] == 0 && dir[1] == 0 && dir[2] == 1);
+#endif
     EPlusGGInteractor interact(shared, particle, dir, allocate);
     StubRng rng;
     Interaction r = interact(rng);
@@ -172,4 +199,22 @@ VERIF_OBLIGATION(obl_c04_eplusgg)
     verif_assert(e0 > 0 && e1 > 0, "positive photon energies");
 #endif
     verif_assert(verif_close(e0 + e1 + r.energy_deposition.value(), e + 2 * mec2, e + 2 * mec2), "E_in + 2 m c^2 = E_gamma1 + E_gamma2 (+ deposit)");
+#ifdef VERIF_MOMENTUM
+    // both products are returned: the photon momenta must add up to the positron's momentum
+    // known finding F9: in flight the second photon is emitted along p_inc - T * inc_dir (i.e. along the incident direction) instead of p_inc - E1 * dir1
+    verif_assume(!verif_known_region("F9", e > 0));
+    if (e > 0)
+    {
+        double tau_ = e / mec2;
+        double sq_ = std::sqrt(tau_ / (tau_ + 2)) * 0.5;
+        verif_assume(g_eps >= 0.5 - sq_ && g_eps <= 0.5 + sq_);
+    }
+    double pinc = std::sqrt(e * (e + 2 * mec2));
+    Real3 const& d0 = f.storage[0].direction;
+    Real3 const& d1 = f.storage[1].direction;
+    // component along the incident direction (necessary condition; the transverse components follow the same pattern)
+    double c0 = d0[0] * dir[0] + d0[1] * dir[1] + d0[2] * dir[2];
+    double c1 = d1[0] * dir[0] + d1[1] * dir[1] + d1[2] * dir[2];
+    verif_assert(verif_close(e0 * c0 + e1 * c1, pinc, e + 2 * mec2), "photon momenta along the incident direction add up to the positron momentum");
+#endif
 }
